@@ -1,5 +1,5 @@
 /*VERIF
-{ "tu": "src/queue.c", "enforce": "_dispatch_lane_inherit_wlh_from_target", "props": ["C03"], "nondet_volatile": true, "timeout": 200,
+{ "tu": "src/queue.c", "enforce": "_dispatch_lane_inherit_wlh_from_target", "props": ["C03", "C06"], "nondet_volatile": true, "timeout": 200,
   "stub_note": "_dispatch_base_lane_is_wlh: arbitrary result; deferred items: none" }
 VERIF*/
 #ifdef VERIF_PRE
@@ -20,6 +20,10 @@ VERIF_CONTRACT_VOID(_dispatch_lane_inherit_wlh_from_target, (dispatch_lane_t dq,
   ENS(role_is_inner_unless_the_target_is_a_root_queue, VIMPL(ROLE_COMMIT,
         S_ROLE(LOGB(0)) == (!TQ_IS_ROOT ? DISPATCH_QUEUE_ROLE_INNER : H_is_wlh ? DISPATCH_QUEUE_ROLE_BASE_WLH : DISPATCH_QUEUE_ROLE_BASE_ANON) &&
         (LOGB(0) & ~DISPATCH_QUEUE_ROLE_MASK) == (LOGA(0) & ~DISPATCH_QUEUE_ROLE_MASK)))
+  /* C06: dq_state also carries the suspend count, the lock and the enqueued mark, which other threads change at any time: the role is
+   * switched by ONE atomic read-modify-write that keeps every other bit of the value it replaced (a separate load and store loses a
+   * concurrent dispatch_suspend / dispatch_resume) */
+  ENS(role_switch_preserves_every_other_bit_of_the_value_it_replaces, VIMPL(ROLE_COMMIT, (LOGB(0) & ~DISPATCH_QUEUE_ROLE_MASK) == (LOGA(0) & ~DISPATCH_QUEUE_ROLE_MASK)))
   ENS(unchanged_state_already_has_the_right_role, VIMPL(!ROLE_COMMIT && __verif_n == 0 && TQ_IS_ROOT,
         S_ROLE(__verif_last_load) == (H_is_wlh ? DISPATCH_QUEUE_ROLE_BASE_WLH : DISPATCH_QUEUE_ROLE_BASE_ANON)))
 )
